@@ -244,6 +244,7 @@ Proof.
     { induction l as [|v l IH]; intro c0; cbn [fold_left]; [apply vle_refl|].
       eapply vle_trans; [apply vle_join_l|apply IH]. }
     apply (G (seq 0 (nthr st)) (tclk (thr st t))).
+  - inversion H; subst; clear H. split; [csame|apply no_atomic; intros w op o n ord [Hin|[]]; discriminate].
 Qed.
 
 Lemma wh_add_clk : forall st h st1 wi, wh_add st h = Some (st1, wi) ->
@@ -333,7 +334,7 @@ Proof.
   induction fuel as [|f IH]; intros s acc k ev s1 acc1 k1 ev1 H w op o n ord Hin; cbn [norm] in H.
   - inversion H; subst; auto.
   - destruct k as [|i r]; [inversion H; subst; auto|].
-    destruct i as [c| |[|bm bms]|bm [|a ls]| |[|b bs]|[|b bs]| | | | | | |];
+    destruct i as [c| |[|bm bms]|bm [|a ls]| |[|b bs]|[|b bs]| | | | | | | |];
       try (inversion H; subst; auto; fail); try (eapply IH; eauto; fail).
     + destruct (slab_get s b); [inversion H; subst; auto|eapply IH; eauto].
     + destruct (wh_del s b) as [[h s']|]; [|eapply IH; eauto].
